@@ -29,7 +29,17 @@ func genPreviewHistory(r *vc.Rand) []histItem {
 		}
 		return op
 	}
-	h = append(h, histItem{Op: stamp(g.fund("alice", 300))}, histItem{Op: stamp(g.fund("bob", 100))})
+	if r.Chance(1, 3) {
+		// previews on an empty ledger, before the first real transaction (and sometimes a restart right after them)
+		for k := r.Range(1, 2); k > 0; k-- {
+			pv := stamp(g.fund(vc.Pick(r, accts), int64(r.Range(1, 50))))
+			pv.DryRun = true
+			pv.Tag = fmt.Sprintf("%s-preview-first%d", pv.Tag, k)
+			pv.Meta = map[string]string{"req": pv.Tag}
+			h = append(h, histItem{Op: pv})
+		}
+	}
+	h = append(h, histItem{Op: stamp(g.fund("alice", 300)), Restart: r.Chance(1, 4)}, histItem{Op: stamp(g.fund("bob", 100))})
 	nTx = 2
 	for k := 0; k < n; k++ {
 		op := stamp(g.mixedOp(nTx, false))
